@@ -12,8 +12,13 @@ Alphabet
       kind 2  typedef B_t T_j_t; + forcetype T_j_t + a published function using it
                                                (typedef edge: a global typedef whose
                                                 wrapped type is owned by the other library)
-  Every directed graph (cyclic or not) on k nodes is realisable; only k*3^(k-1) distinct
-  (library, out-edge vector) databases are needed.  Library names are chosen so that the
+  chain depth d > 1: additionally, for every walk j->t->u.. of <= d edges whose later edges
+  are inheritance edges, a class C_j_t_u.. : public C_t_u.. (or a forced typedef of it when
+  j->t is a typedef edge) -- a class that is referenced from another library AND is itself
+  derived across libraries, so the edges of a class first seen as a foreign reference and
+  only later defined (made global by the merge) carry ordering obligations.
+  Every directed graph (cyclic or not) on k nodes is realisable; databases are generated
+  once per distinct (library, set of walks) and reused across graphs (468 for k=3, 3340 for k=4).  Library names are chosen so that the
   alphabetical order (the iteration order of interrogate_module's std::map) is the
   reverse of the index order, and every graph is enumerated with every labelling, so a
   "lucky" alphabetical order cannot hide a wrong ready-set loop.
